@@ -15,6 +15,7 @@ import (
 	"verifharness/gen"
 	"verifharness/gs"
 	"verifharness/oracle"
+	"verifharness/texts"
 	"verifharness/vf"
 )
 
@@ -28,7 +29,7 @@ type Case struct {
 }
 
 func problem(c Case) (*explain.Problem, error) {
-	return explain.ParseCNF(strings.NewReader(gs.Dimacs(c.N, c.Clauses)))
+	return explain.ParseCNF(texts.ReaderFor(gs.Dimacs(c.N, c.Clauses)))
 }
 
 func certText(c Case) string {
@@ -50,7 +51,7 @@ func certText(c Case) string {
 
 func runChecker(c Case, pb *explain.Problem) (bool, error) {
 	if c.Entry == "reader" {
-		return pb.Unsat(strings.NewReader(certText(c)))
+		return pb.Unsat(texts.ReaderFor(certText(c)))
 	}
 	ch := make(chan string)
 	go func() {
